@@ -40,6 +40,7 @@ theorem crashPoints_spec {c : Cfg} : ∀ (ops : List SOp) {a : Sf.Abs} {h : H} {
         simpa [Sf.Abs.run, Sf.Abs.step] using this
       · simp at hx
     · obtain ⟨pre, post, e, e1, e2, e3⟩ := crashPoints_spec ops i1 (fun o ho => hv o (by simp [ho])) _ _ x hx
+      simp only [Prod.mk.eta] at e1
       refine ⟨.write w :: pre, post, by rw [e]; rfl, ?_, ?_, ?_⟩
       · rw [e1]; simp only [callsOf, List.length_cons]; omega
       · rw [e2]; simp only [sessFrames, List.map_cons, List.sum_cons, SOp.frames]; omega
@@ -51,6 +52,7 @@ theorem crashPoints_spec {c : Cfg} : ∀ (ops : List SOp) {a : Sf.Abs} {h : H} {
     · subst hx
       exact ⟨[.update], ops, rfl, by simp [callsOf], by simp [sessFrames, SOp.frames], by simpa [Sf.Abs.run, Sf.Abs.step] using hb⟩
     · obtain ⟨pre, post, e, e1, e2, e3⟩ := crashPoints_spec ops i1 (fun o ho => hv o (by simp [ho])) _ _ x hx
+      simp only [Prod.mk.eta] at e1
       refine ⟨.update :: pre, post, by rw [e]; rfl, ?_, ?_, ?_⟩
       · rw [e1]; simp only [callsOf]
       · rw [e2]; simp only [sessFrames, List.map_cons, List.sum_cons, SOp.frames]; omega
@@ -59,10 +61,18 @@ theorem crashPoints_spec {c : Cfg} : ∀ (ops : List SOp) {a : Sf.Abs} {h : H} {
     have i1 := stepAuto_inv i b
     simp only [crashPoints] at hx
     obtain ⟨pre, post, e, e1, e2, e3⟩ := crashPoints_spec ops i1 (fun o ho => hv o (by simp [ho])) _ _ x hx
+    simp only [Prod.mk.eta] at e1
     refine ⟨.auto b :: pre, post, by rw [e]; rfl, ?_, ?_, ?_⟩
     · rw [e1]; simp only [callsOf]
     · rw [e2]; simp only [sessFrames, List.map_cons, List.sum_cons, SOp.frames]; omega
     · rw [e3]; rfl
+
+theorem predOf_g (S : Sess) (hs : H × Store) : (predOf S hs).g = S.geom := rfl
+theorem predOf_ty (S : Sess) (hs : H × Store) : (predOf S hs).ty = S.ty := rfl
+theorem predOf_split_calls (S : Sess) (hs : H × Store) : (predOf S hs).split.calls = callsOf S.ch.toNat hs S.ops := rfl
+theorem predOf_one_calls (S : Sess) (hs : H × Store) : (predOf S hs).one.calls = callsOf S.ch.toNat hs (refOps S) := rfl
+theorem snapOf_k (S : Sess) (y : Nat × Nat × List Byte) : (snapOf S y).k = y.1 := rfl
+theorem geom_ch (S : Sess) : S.geom.ch = S.ch.toNat := rfl
 
 /-- decoding the data of a prefix: the first items of the decoded whole -/
 theorem decode_prefix (e : Enc) (hnb : 0 < e.nbytes) (c' : Conv) (ty : Ty) (xs ys : List Int) :
@@ -121,15 +131,15 @@ theorem handle_pred_good (S : Sess) (h : H) (s : Store) (ok : S.Ok h s) : Good (
     exact C01.data_roundtrip C01.widenExact c.enc hwf hnb {} {} S.ty xs (fun v hv => ok.range v (hsub v hv))
       (fun v hv => sampleOk_lossless f6 S.ty v (ok.range v (hsub v hv)) (hok v hv))
   refine {
-    chpos := hpos, block := by rw [hB]; exact Nat.le_refl 1, calls1 := gR1, calls2 := gS1,
+    chpos := hpos, block := by show 1 ≤ S.geom.block; rw [hB], calls1 := gR1, calls2 := gS1,
     same := by show samples (callsOf _ _ S.ops) = samples (callsOf _ _ (refOps S)); rw [gS2, gR2, hsR],
     reopened := r1, info := r2, rate := r3,
     framesLo := ?_, framesHi := ?_, eof := ?_, more := r6, rbLen := ?_, roundtrip := ?_,
     partition := hpart, stale := rfl, snaps := ?_ }
   · show ((framesOf S.ch.toNat (callsOf _ _ (refOps S)) : Nat) : Int) ≤ _
     rw [gR3, hNR]; exact Int.le_of_eq r4.symm
-  · show _ < ((framesOf S.ch.toNat (callsOf _ _ (refOps S)) : Nat) : Int) + _
-    rw [gR3, hNR, hB]; show (infoOf _).frames < _; rw [r4]; omega
+  · show (infoOf _).frames < ((framesOf S.ch.toNat (callsOf _ _ (refOps S)) : Nat) : Int) + (S.geom.block : Int)
+    rw [gR3, hNR, hB, r4]; omega
   · show (readBack _ _ _ _).1 = (infoOf _).frames * _
     rw [r5, r4]; push_cast; rfl
   · show (samples (callsOf _ _ (refOps S))).length ≤ (readBack _ _ _ _).2.1.length
@@ -137,6 +147,7 @@ theorem handle_pred_good (S : Sess) (h : H) (s : Store) (ok : S.Ok h s) : Good (
     exact Nat.mul_le_mul_right _ (by omega)
   · intro hok
     show (readBack _ _ _ _).2.1.take (samples (callsOf _ _ (refOps S))).length = samples (callsOf _ _ (refOps S))
+    simp only [predOf_g, predOf_ty, predOf_one_calls] at hok
     rw [gR2, hsR] at hok ⊢
     rw [hlenS, r8]
     exact hlossless _ (fun v hv => hv) hok
@@ -156,8 +167,7 @@ theorem handle_pred_good (S : Sess) (h : H) (s : Store) (ok : S.Ok h s) : Good (
     have hbefore : (callsOf S.ch.toNat (h, s) S.ops).take y.1 = callsOf S.ch.toNat (h, s) pre := by
       rw [e1]; conv => lhs; rw [e]
       rw [callsOf_append]; exact List.take_left' rfl
-    have hNk : framesOf S.ch.toNat ((predOf S (h, s)).split.calls.take y.1) = sessFrames S.ch.toNat pre := by
-      show framesOf S.ch.toNat ((callsOf S.ch.toNat (h, s) S.ops).take y.1) = _
+    have hNk : framesOf S.ch.toNat ((callsOf S.ch.toNat (h, s) S.ops).take y.1) = sessFrames S.ch.toNat pre := by
       rw [hbefore, gP3]
     have hfl : floorToBlock (sessFrames S.ch.toNat pre) S.geom.block = sessFrames S.ch.toNat pre := by
       rw [hB]; simp [floorToBlock]
@@ -185,12 +195,16 @@ theorem handle_pred_good (S : Sess) (h : H) (s : Store) (ok : S.Ok h s) : Good (
       intro v hv; rw [hsplit]; exact List.mem_append_left _ hv
     refine { opened := q1, info := q2, frames := ?_, short := ?_, len := ?_, final := ?_, exact := ?_ }
     · show (infoOf _).frames = _
+      simp only [predOf_g, predOf_split_calls, snapOf_k, geom_ch]
       rw [hNk, hfl]; exact q4
     · show _ ≤ (readBack _ _ _ _).1.toNat
+      simp only [predOf_g, predOf_split_calls, snapOf_k, geom_ch]
       rw [hNk, hfl, q5]; exact Nat.le_of_eq (Int.toNat_natCast _).symm
     · show _ ≤ (readBack _ _ _ _).2.1.length
+      simp only [predOf_g, predOf_split_calls, snapOf_k, geom_ch]
       rw [hNk, hfl, q7]; exact Nat.mul_le_mul_right _ (by rw [e2]; omega)
     · show (readBack _ _ _ _).2.1.take _ = (readBack _ _ _ _).2.1.take _
+      simp only [predOf_g, predOf_split_calls, snapOf_k, geom_ch]
       rw [hNk, hfl, q8]
       have hle : sessFrames S.ch.toNat pre * S.ch.toNat ≤ sessFrames S.ch.toNat S.ops * S.ch.toNat := by
         rw [← hlenP, ← hlenS, hsplit]; simp
@@ -205,9 +219,9 @@ theorem handle_pred_good (S : Sess) (h : H) (s : Store) (ok : S.Ok h s) : Good (
       exact (decode_prefix c.enc hnb {} S.ty _ _).symm
     · intro hok
       show (readBack _ _ _ _).2.1.take _ = (samples _).take _
+      simp only [predOf_g, predOf_ty, predOf_split_calls, snapOf_k, geom_ch] at hok ⊢
       rw [hNk, hfl, q8]
-      have hb2 : samples ((predOf S (h, s)).split.calls.take y.1) = sampleList S.ch.toNat pre := by
-        show samples ((callsOf S.ch.toNat (h, s) S.ops).take y.1) = _
+      have hb2 : samples ((callsOf S.ch.toNat (h, s) S.ops).take y.1) = sampleList S.ch.toNat pre := by
         rw [hbefore, gP2]
       rw [hb2] at hok ⊢
       rw [← hlenP, List.take_length]
